@@ -6,11 +6,14 @@
     Resolve, address mappers, fiano ranges) is imported from Model/Refs.v and
     Model/Ranges.v (C11).  No proofs here.
 
-    Value-level model: Go slices are lists.  This is exact for the fixed code as
-    long as the range slices of different references of the log do not share a
-    backing array with spare capacity (References.SortAndMerge appends to the
-    ranges of the first reference of a group in place; see finding
-    C10-shared-backing-append, probed by the harness). *)
+    Value-level model: Go slices are lists.  This is exact for one pass over the
+    log as it reads when the pass starts, as long as no range slice of the log
+    with fewer than two elements has spare capacity (References.SortAndMerge
+    appends to the ranges of the first reference of a group in place, and only
+    slices of two or more ranges are re-allocated before; finding
+    C10-shared-backing-append).  The slice-level model Model/ValidatorsHeap.v has
+    no such restriction and also says what a pass does to the memory behind the
+    log; the correspondence check runs both. *)
 From CSS Require Import Lib.Base Model.Ranges Model.Refs.
 
 (** ** The log as the validators see it *)
